@@ -79,7 +79,12 @@ def h_retarget(eng, fmt, pie, a_int, b_int, request, reverse=False, return_edges
         return gtirb.Symbol(name, payload=gtirb.ProxyBlock(module=m), module=m)
 
     A = make_symbol("A", a_int, blk["fa"])
-    B = make_symbol("B", b_int, blk["fb"])
+    if request == "alias":
+        # B is another name for the very place A designates (same block / same proxy): uses move to B, edges stay put
+        B = gtirb.Symbol("B", payload=A.referent, module=m)
+        b_int = a_int
+    else:
+        B = make_symbol("B", b_int, blk["fb"])
     C = make_symbol("C", True, blk["fc"])
     T = make_symbol("T", a_int, blk["fc"])  # bystander with the same kinds of uses and the same internal/external status
     D = gtirb.Symbol("D", payload=d_obj, module=m)  # a data object
@@ -141,7 +146,8 @@ def h_retarget(eng, fmt, pie, a_int, b_int, request, reverse=False, return_edges
     fe = _auxdata.function_entries.get_or_insert(m)
     fn = _auxdata.function_names.get_or_insert(m)
     for name, blocks, s in (("U", ["u_call", "u_next", "u_jmp", "u_lea", "u_icall", "u_inext"], None), ("V", ["v_call", "v_next", "v_lea"], None),
-                            ("FA", ["fa"], A if a_int else None), ("FB", ["fb"], B if b_int else None), ("FC", ["fc"], C)):
+                            ("FA", ["fa"], A if a_int else None), ("FB", ["fb"], B if b_int and request != "alias" else None),
+                            ("FC", ["fc"], C)):
         u = uuid.uuid4()
         fb[u] = {blk[b] for b in blocks}
         fe[u] = {blk[blocks[0]]}
@@ -184,7 +190,7 @@ def h_retarget(eng, fmt, pie, a_int, b_int, request, reverse=False, return_edges
         except AmbiguousIRError:
             eng.ok()
         return
-    mapping = {"one": {"A": "B"}, "chain": {"A": "B", "B": "C"}, "two": {"A": "B", "T": "C"}, "with_insert": {"A": "B"},
+    mapping = {"one": {"A": "B"}, "alias": {"A": "B"}, "chain": {"A": "B", "B": "C"}, "two": {"A": "B", "T": "C"}, "with_insert": {"A": "B"},
                "to_data": {"A": "D"}, "from_data": {"D": "B"}}[request]
     if request == "chain":
         # B itself has a use that must move to C
@@ -245,6 +251,13 @@ def h_retarget(eng, fmt, pie, a_int, b_int, request, reverse=False, return_edges
               "fallthrough edges were changed by retargeting")
     if not return_edges:
         return  # C11 reuses these assertions for registration orders; the return-edge clause is C18's (known finding there)
+    if request == "alias":
+        # every edge (return edges included) is exactly what it was
+        eng.check({(e.source, e.target, e.label.type) for e in cfg} == edges_before,
+                  "retargeting to an alias of the same block changed the CFG: lost %r, new %r" % (
+                      sorted(str(x) for x in edges_before - {(e.source, e.target, e.label.type) for e in cfg}),
+                      sorted(str(x) for x in {(e.source, e.target, e.label.type) for e in cfg} - edges_before)))
+        return
     # return edges follow the calls
     new_callee = syms[mapping["A"]]
     if isinstance(new_callee.referent, gtirb.CodeBlock):
@@ -338,6 +351,9 @@ def make_check(tier):
                 for request in ("one", "chain", "two", "with_insert", "to_data", "from_data"):
                     chk.add("retarget/%s%s/A%s-B%s/%s" % (fmt, "-pie" if pie else "", "int" if a_int else "ext", "int" if b_int else "ext", request),
                             h_retarget, params=dict(fmt=fmt, pie=pie, a_int=a_int, b_int=b_int, request=request))
+        for a_int in (True, False):
+            chk.add("retarget/%s%s/A%s/alias" % (fmt, "-pie" if pie else "", "int" if a_int else "ext"), h_retarget,
+                    params=dict(fmt=fmt, pie=pie, a_int=a_int, b_int=a_int, request="alias"))
         chk.add("retarget/%s%s/invalid" % (fmt, "-pie" if pie else ""), h_retarget,
                 params=dict(fmt=fmt, pie=pie, a_int=True, b_int=True, request="invalid"))
         chk.add("retarget/%s%s/into_data" % (fmt, "-pie" if pie else ""), h_retarget,
@@ -352,7 +368,7 @@ def make_check(tier):
         "uses of A": "direct call, direct jump, lea (data reference in code), data word, CFI personality and LSDA, symbolForwarding value; "
                      "a bystander symbol with the same kinds of uses",
         "configurations": "x86-64 ELF PIE / ELF non-PIE / PE; A and B internal or external in all four combinations; one retarget, "
-                          "chain A->B,B->C, two independent retargets, retarget combined with an insertion; the four invalid requests",
+                          "chain A->B,B->C, two independent retargets, retarget to an alias of the same block/proxy, retarget combined with an insertion; the four invalid requests",
         "symbolic": "addends of the code reference and of the data word (any integer)",
         "concrete": "instruction bytes and addresses (the real capstone decoder classifies the access)",
     }
